@@ -44,10 +44,12 @@ type vfPipe struct {
 	maxChunk  int            // 0: any; else cap of one delivery
 	noFrag    bool           // deliver everything the reader asks for
 	parkWrites bool          // every Write parks first (only where no other goroutine can want the writer's lock)
+	stallAt    int           // ordinal of the Write that stalls (back-pressure) until the scheduler releases it; -1 none
+	stallLen   int           // how many consecutive writes stall
 }
 
 func (s *vfSim) newPipe(name string) *vfPipe {
-	p := &vfPipe{sim: s, name: name, cutAt: -1, wrFaultAt: -1}
+	p := &vfPipe{sim: s, name: name, cutAt: -1, wrFaultAt: -1, stallAt: -1}
 	s.pipes = append(s.pipes, p)
 	s.addSource(p.events)
 	return p
@@ -206,6 +208,14 @@ func (p *vfPipe) Write(b []byte) (int, error) {
 	s := p.sim
 	if p.parkWrites {
 		s.park("n:"+p.name+":write", nil)
+	}
+	s.mu.Lock()
+	stall := p.stallAt >= 0 && p.writes >= p.stallAt && p.writes < p.stallAt+p.stallLen
+	s.mu.Unlock()
+	if stall {
+		// a peer that is slow to read: the writer (holding its connection's write lock) waits
+		s.count("fault." + p.name + ".stall")
+		s.park("n:"+p.name+":stalled-write", nil)
 	}
 	s.mu.Lock()
 	ord := p.writes
